@@ -66,6 +66,11 @@ class Assume:
             if isinstance(node, ast.Name):
                 env.vars[node.id] = n
             return [env]
+        if isinstance(v, RegDict):
+            # `if not results: raise`: entries without properties do not reach the reads that follow
+            if truth:
+                env.facts = env.facts | {('haskey', v.rid, '')}
+            return [env]
         if isinstance(v, MatchV):
             if truth:
                 return self.match_refine(v.lang, v.subject, True, env, bind=node if isinstance(node, ast.Name) else None)
